@@ -457,45 +457,52 @@ theorem lookup_filterMap (F : Nat → Option (Nat × Rat)) (hF : ∀ j k w, F j 
         simp only [List.lookup_cons, this, ih, List.mem_cons, hij, false_or]
 
 /-- what `_p_values_worker` stores for gene `i` -/
-theorem workerRow_lookup {o : List Nat} {r16 : Rat → Rat} {t : Thresholds} {praw : List Rat}
-    {g : List GeneScore} {row : List (Nat × Rat)}
-    (h : pValuesWorkerRowWith o r16 t praw g = .ok row) (i : Nat) :
-    ThresholdsOK t ∧ ∃ bad, 0 ≤ bad ∧
+theorem workerRow_lookup {o : List Nat} {r16 : Rat → Rat} {t : Thresholds} {n1 n2 : Nat}
+    {praw : List Rat} {g : List GeneScore} {row : List (Nat × Rat)}
+    (h : pValuesWorkerRowWith o r16 t n1 n2 praw g = .ok row) (i : Nat) :
+    (row = [] ∧ (n1 < 2 ∨ n2 < 2)) ∨
+    (2 ≤ n1 ∧ 2 ≤ n2 ∧ ThresholdsOK t ∧ ∃ bad, 0 ≤ bad ∧
     row.lookup i =
       (match (approxCorrectTtestWith o praw t.pTh)[i]?, (g.map (geneDist t bad))[i]? with
         | some p, some x =>
           if decide (p < t.pTh) && !x.invalid then some (maskWgt r16 x.wgt) else none
-        | _, _ => none) := by
+        | _, _ => none)) := by
   unfold pValuesWorkerRowWith at h
-  simp only at h
   split at h
-  · cases h
-  · rename_i d hd
-    obtain ⟨ht, bad, hb, rfl⟩ := penetranceDistance_ok hd
-    refine ⟨ht, bad, hb, ?_⟩
-    cases h
-    rw [lookup_filterMap]
-    · by_cases hi : i < (g.map (geneDist t bad)).length
-      · rw [if_pos (List.mem_range.mpr hi)]
-        cases h1 : (approxCorrectTtestWith o praw t.pTh)[i]? with
-        | none => simp
-        | some p =>
-          cases h2 : (List.map (geneDist t bad) g)[i]? with
+  · rename_i hn
+    left; cases h; exact ⟨rfl, hn⟩
+  · rename_i hn
+    right
+    refine ⟨by omega, by omega, ?_⟩
+    simp only at h
+    split at h
+    · cases h
+    · rename_i d hd
+      obtain ⟨ht, bad, hb, rfl⟩ := penetranceDistance_ok hd
+      refine ⟨ht, bad, hb, ?_⟩
+      cases h
+      rw [lookup_filterMap]
+      · by_cases hi : i < (g.map (geneDist t bad)).length
+        · rw [if_pos (List.mem_range.mpr hi)]
+          cases h1 : (approxCorrectTtestWith o praw t.pTh)[i]? with
           | none => simp
-          | some x =>
-            simp only
-            split <;> simp
-      · rw [if_neg (by simpa using hi)]
-        have h2 : (List.map (geneDist t bad) g)[i]? = none :=
-          List.getElem?_eq_none (by simpa using hi)
-        rw [h2]
-        cases (approxCorrectTtestWith o praw t.pTh)[i]? <;> rfl
-    · intro j k w hj
-      split at hj
-      · split at hj
-        · cases hj; rfl
+          | some p =>
+            cases h2 : (List.map (geneDist t bad) g)[i]? with
+            | none => simp
+            | some x =>
+              simp only
+              split <;> simp
+        · rw [if_neg (by simpa using hi)]
+          have h2 : (List.map (geneDist t bad) g)[i]? = none :=
+            List.getElem?_eq_none (by simpa using hi)
+          rw [h2]
+          cases (approxCorrectTtestWith o praw t.pTh)[i]? <;> rfl
+      · intro j k w hj
+        split at hj
+        · split at hj
+          · cases hj; rfl
+          · cases hj
         · cases hj
-      · cases hj
 
 theorem maskWgt_zero {r16 : Rat → Rat} (h16 : r16 (-1) = -1) : maskWgt r16 0 = -1 := by
   unfold maskWgt f16Max eps16
@@ -626,9 +633,11 @@ theorem pValidMask_getElem? {o : List Nat} {praw : List Rat} {pTh : Rat} {i : Na
 
 /-- soundness of the p-value-mask route for one pair -/
 theorem maskRoute_sound {o : List Nat} {r16 : Rat → Rat} {t : Thresholds} {nValid : Nat}
-    {gi : Option (List Nat)} {praw : List Rat} {g : List GeneScore} {m1 m2 : List Rat} {out : Out}
-    (h : maskRouteWith o r16 t nValid gi praw g m1 m2 = .ok out) {i : Nat}
+    {gi : Option (List Nat)} {n1 n2 : Nat} {praw : List Rat} {g : List GeneScore}
+    {m1 m2 : List Rat} {out : Out}
+    (h : maskRouteWith o r16 t nValid gi n1 n2 praw g m1 m2 = .ok out) {i : Nat}
     (hi : out.valid[i]? = some true) :
+    2 ≤ n1 ∧ 2 ≤ n2 ∧
     (pValidMask o praw t.pTh)[i]? = some true ∧ (∀ idx, gi = some idx → i ∈ idx) ∧
       ∃ s, g[i]? = some s ∧ AboveFloors t s := by
   unfold maskRouteWith at h
@@ -640,7 +649,9 @@ theorem maskRoute_sound {o : List Nat} {r16 : Rat → Rat} {t : Thresholds} {nVa
     · rename_i v hv
       cases h
       obtain ⟨_, hsome, hlist⟩ := getValidityMask_sound hv hi
-      obtain ⟨_, bad, _, hlk⟩ := workerRow_lookup hrow i
+      rcases workerRow_lookup hrow i with ⟨hnil, _⟩ | ⟨hn1, hn2, _, bad, _, hlk⟩
+      · rw [hnil] at hsome; simp at hsome
+      refine ⟨hn1, hn2, ?_⟩
       rw [hlk] at hsome
       cases hp : (approxCorrectTtestWith o praw t.pTh)[i]? with
       | none => simp [hp] at hsome
@@ -661,9 +672,11 @@ theorem maskRoute_sound {o : List Nat} {r16 : Rat → Rat} {t : Thresholds} {nVa
 /-- completeness of the p-value-mask route for one pair (`r16 (-1) = -1`: float16 stores -1
 exactly) -/
 theorem maskRoute_complete {o : List Nat} {r16 : Rat → Rat} {t : Thresholds} {nValid : Nat}
-    {gi : Option (List Nat)} {praw : List Rat} {g : List GeneScore} {m1 m2 : List Rat} {out : Out}
+    {gi : Option (List Nat)} {n1 n2 : Nat} {praw : List Rat} {g : List GeneScore}
+    {m1 m2 : List Rat} {out : Out}
     (h16 : r16 (-1) = -1)
-    (h : maskRouteWith o r16 t nValid gi praw g m1 m2 = .ok out) {i : Nat} {s : GeneScore}
+    (h : maskRouteWith o r16 t nValid gi n1 n2 praw g m1 m2 = .ok out)
+    (hn1 : 2 ≤ n1) (hn2 : 2 ≤ n2) {i : Nat} {s : GeneScore}
     (hg : g[i]? = some s) (hst : Strict t s) (hal : ∀ idx, gi = some idx → i ∈ idx)
     (hp : (pValidMask o praw t.pTh)[i]? = some true) :
     out.valid[i]? = some true := by
@@ -676,7 +689,8 @@ theorem maskRoute_complete {o : List Nat} {r16 : Rat → Rat} {t : Thresholds} {
     · cases h
     · rename_i v hv
       cases h
-      obtain ⟨ht, bad, _, hlk⟩ := workerRow_lookup hrow i
+      rcases workerRow_lookup hrow i with ⟨_, hsmall⟩ | ⟨_, _, ht, bad, _, hlk⟩
+      · omega
       apply getValidityMask_complete hv hilt _ hal
       rw [hlk]
       unfold pValidMask at hp
@@ -688,8 +702,9 @@ theorem maskRoute_complete {o : List Nat} {r16 : Rat → Rat} {t : Thresholds} {
         maskWgt_zero h16]
 
 theorem maskRoute_up {o : List Nat} {r16 : Rat → Rat} {t : Thresholds} {nValid : Nat}
-    {gi : Option (List Nat)} {praw : List Rat} {g : List GeneScore} {m1 m2 : List Rat} {out : Out}
-    (h : maskRouteWith o r16 t nValid gi praw g m1 m2 = .ok out) : out.up = upMask m1 m2 := by
+    {gi : Option (List Nat)} {n1 n2 : Nat} {praw : List Rat} {g : List GeneScore}
+    {m1 m2 : List Rat} {out : Out}
+    (h : maskRouteWith o r16 t nValid gi n1 n2 praw g m1 m2 = .ok out) : out.up = upMask m1 m2 := by
   unfold maskRouteWith at h
   split at h
   · cases h
@@ -851,5 +866,37 @@ theorem merge_chunks (nPer : Nat) (rows : List (List Nat)) :
   unfold mergeSparse
   simp only [mergeGo_lookup, chunksOf_flatten]
   rfl
+
+theorem chunksOf_eq {α} (n : Nat) (l : List α) :
+    chunksOf n l = if n = 0 ∨ l = [] then (if l = [] then [] else [l])
+      else l.take n :: chunksOf n (l.drop n) := by
+  rw [chunksOf]
+  split <;> rfl
+
+theorem chunksOf_map {α β} (f : α → β) (n : Nat) (l : List α) :
+    (chunksOf n l).map (List.map f) = chunksOf n (l.map f) := by
+  induction hlen : l.length using Nat.strong_induction_on generalizing l with
+  | _ k ih =>
+    rw [chunksOf_eq n l, chunksOf_eq n (l.map f)]
+    by_cases hc : n = 0 ∨ l = []
+    · have hc' : n = 0 ∨ l.map f = [] := by
+        rcases hc with h | h
+        · exact Or.inl h
+        · exact Or.inr (by simp [h])
+      rw [if_pos hc, if_pos hc']
+      by_cases hl : l = []
+      · simp [hl]
+      · simp [hl]
+    · have hn : n ≠ 0 := fun e => hc (Or.inl e)
+      have hl : l ≠ [] := fun e => hc (Or.inr e)
+      have hc' : ¬ (n = 0 ∨ l.map f = []) := by
+        rintro (h | h)
+        · exact hn h
+        · exact hl (by simpa using h)
+      have hpos : 0 < l.length := List.length_pos_iff.mpr hl
+      rw [if_neg hc, if_neg hc']
+      simp only [List.map_cons, List.map_take]
+      rw [ih (l.drop n).length (by simp only [List.length_drop]; omega) (l.drop n) rfl,
+        List.map_drop]
 
 end CTM.RefMarkers
